@@ -311,11 +311,21 @@ def np_mean(it, args, kw):
 
 def np_nanmean(it, args, kw):
     a = to_na(args[0])
-    if any(isinstance(x, float) and x != x for x in a.flat()):
-        xs = [x for x in a.flat() if not (isinstance(x, float) and x != x)]
+    ax = _axis(kw, args)
+
+    def red(xs):
+        xs = [x for x in xs if not (isinstance(x, float) and x != x)]
         if not xs:
             return NAN
         return binop("div", fold("add", xs), float(len(xs)))
+    if any(isinstance(x, float) and x != x for x in a.flat()):
+        if a.ndim == 1 or ax is None:
+            return red(a.flat())
+        if ax in (1, -1):
+            return NA([red(r) for r in a.data], 1)
+        if ax == 0:
+            return NA([red([r[j] for r in a.data]) for j in range(a.shape[1])], 1)
+        raise Undecided("nanmean axis")
     return np_mean(it, args, kw)
 
 
